@@ -295,6 +295,16 @@ def body(chk, db, cfgname):
                                              "the element is erased through the loop iterator, which the loop header (`%s`) then increments although it was invalidated") % f.s(n["inc"])[:30], cfgname)
     r5.ok("library:iterator-loops", "/repo/src", "%d iterator loops with the advance in the header examined, none erases through its own iterator" % nloops, cfgname) if not any(i["status"] == "violation" and i["config"] == cfgname for i in r5.instances) else None
 
+    # ------------------------------------------------------------------ R6: the index tables of IndexClassification (anchor file of this property)
+    # A slot of IndicesToInfo that the enumeration leaves unwritten is a null pointer that prepare() itself dereferences when
+    # it builds the inverse table; a slot written twice leaks and hides another.  The deciding rules are C18-R1 / C18-R2 (full
+    # enumeration without a truncating exit, tables sized / filled / read as inverses); they are re-evaluated here under this
+    # property's id because the consequence of breaking them is exactly this property's subject (null dereference, heap overrun).
+    r6 = chk.rule("C17-R6", "IndexClassification::prepare leaves no slot of the index table unwritten and writes none past its extent (the slots are dereferenced right afterwards)", "F8 guards + F1 (rules C18-R1, C18-R2)", 8)
+    from pv.check import ViewCheck
+    from checks import c18
+    c18.body(ViewCheck(chk, {"C18-R1": r6, "C18-R2": r6}), db, cfgname)
+
     chk.undecided.append("arithmetic overflow (1<<IndexSize), use before prepare/compute, lifetime of leaked raw pointers; UB classes outside the anchored mechanisms")
     chk.note("assumed (not checked): FieldOperator::getPartFrom*Index look-ups rely on the bimap invariant established by prepare (C07-R5)")
 
